@@ -201,7 +201,10 @@ func parseWALPage(data []byte, baseOffset uint64, pageNum int) ([]WALRecord, err
 			break
 		}
 
-		rec, consumed := parseXLogRecord(data[pos:], baseOffset+uint64(pos))
+		// The record's LSN is its position in the WAL stream: the page's own
+		// address (xlp_pageaddr) plus the offset inside the page, not the
+		// offset inside the file being read.
+		rec, consumed := parseXLogRecord(data[pos:], header.PageAddr+uint64(pos))
 		if consumed == 0 {
 			break
 		}
